@@ -29,6 +29,35 @@ def collect_syms(t, acc, seen):
         for c in t.children():
             collect_syms(c, acc, seen)
 
+def alpha_eq(a, b, memo=None):
+    """structural equality of two terms up to the names of bound variables (and ignoring triggers)"""
+    if memo is None: memo = {}
+    k = (a.get_id(), b.get_id())
+    if k in memo: return memo[k]
+    memo[k] = True                       # (terms are DAGs; assume equal while comparing below)
+    r = False
+    if z3.is_quantifier(a) and z3.is_quantifier(b):
+        r = (a.is_forall() == b.is_forall() and a.num_vars() == b.num_vars()
+             and all(a.var_sort(i) == b.var_sort(i) for i in range(a.num_vars())) and alpha_eq(a.body(), b.body(), memo))
+    elif z3.is_var(a) and z3.is_var(b):
+        r = z3.get_var_index(a) == z3.get_var_index(b) and a.sort() == b.sort()
+    elif z3.is_app(a) and z3.is_app(b) and not z3.is_quantifier(a) and not z3.is_quantifier(b):
+        r = a.decl().eq(b.decl()) and a.num_args() == b.num_args() and all(alpha_eq(x, y, memo) for x, y in zip(a.children(), b.children()))
+    memo[k] = r
+    return r
+
+def mentions_bound(t):
+    """does the term mention a quantifier-bound spec variable (they are named q!...)?"""
+    seen = set(); stack = [t]
+    while stack:
+        x = stack.pop()
+        if x.get_id() in seen: continue
+        seen.add(x.get_id())
+        if z3.is_const(x) and x.decl().kind() == z3.Z3_OP_UNINTERPRETED and x.decl().name().startswith(('q!', 'k!')):
+            return True
+        stack.extend(x.children())
+    return False
+
 def simp_bool(c):
     c = z3.simplify(c)
     if z3.is_true(c): return True
@@ -190,6 +219,20 @@ class GoExec:
         if key in self.obl_keys:
             return
         self.obl_keys.add(key)
+        if kind == 'proof' and (z3.is_quantifier(goal) or (z3.is_app(goal) and goal.decl().kind() == z3.Z3_OP_IMPLIES)):
+            # a quantified goal that is literally one of the hypotheses (an invariant that holds on entry because it is a
+            # precondition, a postcondition on a path that changes nothing): solvers can spend their whole budget on it
+            gq = goal
+            if not z3.is_quantifier(gq) and simp_bool(gq.arg(0)) is True:
+                gq = gq.arg(1)
+            if z3.is_quantifier(gq):
+                for hh in st.hyps():
+                    if z3.is_quantifier(hh) and alpha_eq(hh, gq):
+                        fname = self.frame.key if self.frame else '?'
+                        o = Obligation('%s/%s' % (fname, name), [hh], goal, kind, func=fname, src=src)
+                        o.status, o.answer, o.solver = 'discharged', 'unsat', 'syntactic (the goal is one of the hypotheses)'
+                        self.obls.append(o)
+                        return
         fname = self.frame.key if self.frame else '?'
         n = '%s/%s' % (fname, name)
         cnt = sum(1 for o in self.obls if o.name == n or o.name.startswith(n + '~'))
@@ -719,6 +762,21 @@ class GoExec:
         ss = self.lay.sorts(ftid)
         terms = [z3.Select(self.heap_arr(st, (tname, fname, i), s), p.ref) for i, s in enumerate(ss)]
         v = self.lay.unflatten(iter(terms), ftid)
+        # type invariants hold of every value stored in the heap (lengths are non-negative, integers are in range);
+        # the quantifier-free ones are recorded once per loaded term
+        if not st.meta.get('concrete') and not st.guards and not mentions_bound(p.ref):
+            try:
+                seen = set(st.meta.get('wfseen', ()))       # (a private copy: states are cloned with shared meta values)
+                st.meta['wfseen'] = seen
+                from .smt import _has_q
+                for w in self.lay.wf(v, ftid):
+                    if w.get_id() in seen or _has_q(w):
+                        continue
+                    seen.add(w.get_id())
+                    if simp_bool(w) is None:
+                        st.assume(w)
+            except Unsupported:
+                pass
         return v
 
     def store_field(self, st, p, tname, fname, ftid, v):
